@@ -43,6 +43,7 @@ class Hist:
         self.trigger = trigger      # None | "onecol" | "rvlast" | "probe2"
         self.n = 0
         self.prevC = None           # width before the last resize that changed it
+        self.just_resized = False
         self.scrolled = False       # has a scrollrect been sent (a driver might cache something on the first one)
         if vis is None:
             lines.append(f"new {L} {C} {slrm} {colon} {rgb}")
@@ -195,7 +196,7 @@ class Hist:
     def rect(self):
         L, C = self.L, self.C
         kind = rng.choice(["full", "band", "band", "right", "left", "inner", "inner", "oneline", "onecol", "any", "any"])
-        if self.prevC is not None and self.prevC < C and rng.random() < 0.35:
+        if self.prevC is not None and self.prevC < C and rng.random() < (0.6 if self.just_resized else 0.3):
             kind = rng.choice(["oldright", "oldright", "oldfull"])
         if kind == "oldright":        # right edge where the right edge of the screen used to be
             t = rng.randrange(L); n = rng.randrange(1, L - t + 1); l = rng.randrange(self.prevC); c = self.prevC - l
@@ -271,7 +272,9 @@ class Hist:
         self.L, self.C = nL, nC
         self.known = False
         if rng.random() < 0.7:
+            self.just_resized = True
             self.scroll()
+            self.just_resized = False
 
     def fill(self):
         """paint the whole screen with text so that scrolls move recognisable content"""
@@ -344,6 +347,48 @@ def exhaustive():
                     if (n % 3) == 0: h.emit("setpen bg=%d" % (n % 16), "setpen")
                     h.emit("scroll %d %d %d %d %d %d" % cs, "scroll"); n += 1
     dist["exhaustive:scroll"] = n
+    # every DECRPM reply value for mode 69 (2 only while it is not the known finding slrm_probe_reset: probed from the
+    # corpus) x every rectangle and offset on a 3x3 screen; replies for modes 25 / 12 run through 0..4 alongside
+    p = 0
+    for reply in (0, 1, 3, 4):
+        cases = []
+        L, C = 3, 3
+        for t in range(L):
+            for b in range(t + 1, L + 1):
+                for l in range(C):
+                    for r in range(l + 1, C + 1):
+                        nl, nc = b - t, r - l
+                        for d in range(-(nl - 1), nl):
+                            for rt in range(-(nc - 1), nc):
+                                cases.append((t, l, nl, nc, d, rt))
+        for i in range(0, len(cases), 6):
+            h = Hist(L, C, reply, 0, 0, None, (i // 6) % 5, (i // 30) % 5)
+            for cs in cases[i:i + 6]:
+                h.fill()
+                h.emit("scroll %d %d %d %d %d %d" % cs, "scroll"); p += 1
+    dist["exhaustive:probe-reply-scroll"] = p
+    # resize: a scroll at the old size, the resize, then every rectangle x offset at the new size (one scroll per
+    # history, so that every one of them is the first after the resize), with and without DECSLRM
+    q = 0
+    for (L0, C0), (L, C) in [((2, 3), (2, 4)), ((2, 4), (2, 3)), ((2, 3), (3, 3)), ((3, 2), (2, 4))]:
+        for reply in (0, 1):
+            for t in range(L):
+                for b in range(t + 1, L + 1):
+                    for l in range(C):
+                        for r in range(l + 1, C + 1):
+                            nl, nc = b - t, r - l
+                            h = None
+                            for d in range(-(nl - 1), nl):
+                                for rt in range(-(nc - 1), nc):
+                                    if d == 0 and rt == 0:
+                                        continue
+                                    h = Hist(L0, C0, reply, 0, 0)
+                                    h.fill()
+                                    h.emit(f"scroll 0 0 {L0} {C0} {1 if L0 > 1 else 0} {0 if L0 > 1 else 1}", "scroll")
+                                    h.emit(f"resize {L} {C}", "resize"); h.L, h.C = L, C
+                                    h.fill()
+                                    h.emit(f"scroll {t} {l} {nl} {nc} {d} {rt}", "scroll"); q += 1
+    dist["exhaustive:resize-scroll"] = q
     # every erase on a 2x5 screen: column, count, moveend, reverse
     m = 0
     for rv in (0, 1):
@@ -387,5 +432,5 @@ else:
 open(a.out, "w").write("\n".join(lines) + "\n")
 info = {"ops": len(lines), "histories": dist["hist"], "distribution": dict(sorted(dist.items()))}
 if a.tier == "exhaustive":
-    info["exhaustive_bound"] = "all rectangles x in-range offsets on 4x5 and 3x3 screens x 8 capability combinations; all erasech (col,count,moveend,reverse) on 2x5; all goto/move on 3x3 (the two known-finding triggers excluded: they are probed from corpus/C09)"
+    info["exhaustive_bound"] = "all rectangles x in-range offsets on 4x5 and 3x3 screens x 8 capability combinations; all erasech (col,count,moveend,reverse) on 2x5; all goto/move on 3x3; every rectangle x offset on 3x3 for the DECRPM replies 0/1/3/4 of mode 69; scroll + resize (2x3->2x4, 2x4->2x3, 2x3->3x3, 3x2->2x4) + every rectangle x non-zero offset at the new size, with and without DECSLRM (the known-finding triggers excluded: they are probed from corpus/C09)"
 print(json.dumps(info))
